@@ -362,4 +362,203 @@ theorem ipv6_stepL (g : Mem) (hg : ByteMem g) (p : Packet) (ctx : Ctx) (o l : Na
         simp
       · simp only [ipv6BoundLax, hz, if_false, hlt]
 
+/-- what `Cur.laxSliceIp` does with a decoded IP layer and its optional stop error -/
+def laxIpCont (c : Cur) (g : Mem) (o : Nat) (r : IpR × Option (PErr × Layer)) : Packet :=
+  match r.2 with
+  | none =>
+    Cur.laxSliceTransport
+      { off := c.off + (r.1.pl.w.o - o), src := if r.1.pl.src ≠ .slice then r.1.pl.src else c.src,
+        r := c.r.setNet (.ip r.1) } g r.1.pl
+  | some (.len e, ly) => (c.r.setNet (.ip r.1)).setStop (.len ((e.addOffset c.off).srcIfSlice c.src)) ly
+  | some (e, ly) => (c.r.setNet (.ip r.1)).setStop e ly
+
+theorem laxSliceTransport_stopped (c : Cur) (g : Mem) (pl : IpPl) (h : c.r.stop.isSome = true) :
+    c.laxSliceTransport g pl = c.r := by
+  unfold Cur.laxSliceTransport
+  simp [h]
+
+theorem laxSliceIp_ok (c : Cur) (g : Mem) (o l : Nat) (r : IpR × Option (PErr × Layer))
+    (h : laxIpSliceFromSlice g o l = .ok r) : c.laxSliceIp g o l = laxIpCont c g o r := by
+  unfold Cur.laxSliceIp laxIpCont
+  rw [h]
+  obtain ⟨ip, stop⟩ := r
+  cases stop with
+  | none => rfl
+  | some x =>
+    obtain ⟨e, ly⟩ := x
+    cases e <;> exact laxSliceTransport_stopped _ g ip.pl rfl
+
+theorem laxSliceIp_errLen (c : Cur) (g : Mem) (o l : Nat) (e : LenError)
+    (h : laxIpSliceFromSlice g o l = .error (.len e)) :
+    c.laxSliceIp g o l = c.r.setStop (.len ((e.addOffset c.off).srcIfSlice c.src)) .ipHeader := by
+  unfold Cur.laxSliceIp
+  rw [h]
+
+theorem laxSliceIp_err (c : Cur) (g : Mem) (o l : Nat) (e : PErr)
+    (h : laxIpSliceFromSlice g o l = .error e) (hne : ∀ le, e ≠ .len le) :
+    c.laxSliceIp g o l = c.r.setStop e .ipHeader := by
+  unfold Cur.laxSliceIp
+  rw [h]
+  cases e <;> first | rfl | exact absurd rfl (hne _)
+
+theorem contentMatch_err {e : PErr} {f : Fault} (h : ContentMatch e f) : ErrMatch e f := by
+  cases e <;> first | exact h | exact h.2.elim
+
+/-- the cursor behind a decoded IP layer, against the walk that continues behind the IP step -/
+theorem afterIpL (c : Cur) (g : Mem) (o l : Nat) (ctx : Ctx) (k : Nat) (t : Tag) (r : IpR × Option (PErr × Layer))
+    (ht : Tied c ctx o l) (hst : c.r.stop = none) (htd : t ≠ .done) (hstep : IpStepL g c.r ctx o t r) :
+    RelLax (laxIpCont c g o r) (walkN true g (k + 2) c.r t ctx) := by
+  obtain ⟨t', c', fo, hs1, hge, hm⟩ := hstep
+  obtain ⟨ip, stop⟩ := r
+  unfold laxIpCont
+  simp only at hs1 hge hm ⊢
+  cases stop with
+  | none =>
+    cases fo with
+    | some f => exact absurd hm (by simp)
+    | none =>
+      simp only at hm ⊢
+      obtain ⟨rfl, rfl⟩ := hm
+      rw [walkN_next true g (k + 1) _ _ _ _ _ _ htd hs1]
+      refine tp_refinesL _ g ip.pl _ k (by simp [hst]) ?_ rfl rfl (inherit_self _ _)
+      have := ht.off
+      simp only; omega
+  | some x =>
+    obtain ⟨e, ly⟩ := x
+    cases fo with
+    | none => exact absurd hm (by simp)
+    | some f =>
+      simp only at hm
+      obtain ⟨hly, hrel⟩ := hm
+      rw [walkN_fault true g (k + 1) _ _ _ _ _ _ f htd hs1]
+      cases e with
+      | len le =>
+        exact relLax_stop (by simp [hst]) ⟨hly, lenRel_fix le f c ctx o l ht hrel⟩
+      | _ => exact relLax_stop (by simp [hst]) ⟨hly, contentMatch_err hrel⟩
+
+theorem laxIpSlice_v4 (g : Mem) (o l : Nat) (h4 : g o / 16 = 4) (h0 : 0 < l) :
+    laxIpSliceFromSlice g o l =
+      if g o % 16 < 5 then .error (.ipIhl (g o % 16))
+      else if l < g o % 16 * 4 then
+        .error (.len { req := g o % 16 * 4, len := l, src := .slice, layer := .ipv4Header, off := 0 })
+      else .ok (ipv4AfterHeaderLax g o l (g o % 16 * 4)) := by
+  unfold laxIpSliceFromSlice ipDispatchHeader
+  have h0' : ¬ l = 0 := by omega
+  simp only [h0', h4, if_true, if_false, Bool.false_eq_true, false_and]
+  by_cases hi : g o % 16 < 5
+  · simp [hi]
+  · simp only [hi, if_false]
+    by_cases hl : l < g o % 16 * 4 <;> simp [hl]
+
+theorem laxIpSlice_v6 (g : Mem) (o l : Nat) (h6 : g o / 16 = 6) (h0 : 0 < l) :
+    laxIpSliceFromSlice g o l =
+      if l < 40 then .error (.len { req := 40, len := l, src := .slice, layer := .ipv6Header, off := 0 })
+      else .ok (ipv6AfterHeaderLax g false o l) := by
+  unfold laxIpSliceFromSlice ipDispatchHeader
+  have h0' : ¬ l = 0 := by omega
+  simp only [h0', h6, if_false, show ¬ (6 = 4) by omega, if_true]
+  by_cases h40 : l < 40 <;> simp [h40]
+
+theorem laxIpSlice_other (g : Mem) (o l : Nat) (h4 : g o / 16 ≠ 4) (h6 : g o / 16 ≠ 6) (h0 : 0 < l) :
+    laxIpSliceFromSlice g o l = .error (.ipVersion (g o / 16)) := by
+  unfold laxIpSliceFromSlice ipDispatchHeader
+  have h0' : ¬ l = 0 := by omega
+  simp [h0', h4, h6]
+
+theorem laxIpSlice_empty (g : Mem) (o : Nat) :
+    laxIpSliceFromSlice g o 0 = .error (.len { req := 1, len := 0, src := .slice, layer := .ipHeader, off := 0 }) := by
+  unfold laxIpSliceFromSlice ipDispatchHeader
+  simp
+
+/-- `Cur.laxSliceIp` against the lax walk from the version dispatch -/
+theorem ip_refinesL (c : Cur) (g : Mem) (hg : ByteMem g) (o l : Nat) (ctx : Ctx) (k : Nat) (ht : Tied c ctx o l)
+    (hst : c.r.stop = none) :
+    RelLaxW g (c.laxSliceIp g o l) (walkN true g (k + 3) c.r .ipAny ctx) := by
+  have hav : ctx.avail = l := by unfold Ctx.avail; have := ht.coff; have := ht.stop; omega
+  have hco := ht.coff
+  by_cases h0 : l = 0
+  · subst h0
+    have hstep : Spec.step true g c.r .ipAny ctx = ⟨c.r, .done, ctx, some (mkFault ctx .cutShort .ipAny 1)⟩ := by
+      simp [Spec.step, hav]
+    rw [walkN_fault true g (k + 2) _ _ _ _ _ _ _ (by simp) hstep, laxSliceIp_errLen c g o 0 _ (laxIpSlice_empty g o)]
+    refine relLaxW_of (relLax_stop hst ⟨by simp [mkFault, StopLayer], ?_⟩)
+    exact lenRel_fix _ _ c ctx o 0 ht (by lenrel)
+  · have hl1 : ¬ ctx.avail < 1 := by omega
+    by_cases h4 : g o / 16 = 4
+    · have hstep : Spec.step true g c.r .ipAny ctx = ⟨c.r, .ipv4, ctx, none⟩ := by
+        simp [Spec.step, hl1, hco, h4]
+      rw [walkN_next true g (k + 2) _ _ _ _ _ _ (by simp) hstep]
+      have hm := laxIpSlice_v4 g o l h4 (by omega)
+      by_cases h20 : l < 20
+      · -- the wrinkle: fewer than 20 bytes
+        have hstep2 : Spec.step true g c.r .ipv4 ctx =
+            ⟨c.r, .done, ctx, some (mkFault ctx .cutShort .ipv4Header 20)⟩ := by
+          simp [Spec.step, hav, h20]
+        rw [walkN_fault true g (k + 1) _ _ _ _ _ _ _ (by simp) hstep2]
+        by_cases hi : g o % 16 < 5
+        · simp only [hi, if_true] at hm
+          rw [laxSliceIp_err c g o l _ hm (by simp)]
+          refine ⟨by simp [noStop_of_none hst], ?_⟩
+          right
+          refine ⟨rfl, rfl, rfl, rfl, by simp [mkFault, hav]; omega, by simp [mkFault, hav, h20],
+            by simp [mkFault, hco, h4], ?_⟩
+          left
+          simp [mkFault, hco, hi]
+        · have hl : l < g o % 16 * 4 := by omega
+          simp only [hi, hl, if_true, if_false] at hm
+          rw [laxSliceIp_errLen c g o l _ hm]
+          refine ⟨by simp [noStop_of_none hst], ?_⟩
+          right
+          refine ⟨rfl, rfl, rfl, rfl, by simp [mkFault, hav]; omega, by simp [mkFault, hav, h20],
+            by simp [mkFault, hco, h4], ?_⟩
+          right
+          refine ⟨by simp [mkFault, hco]; omega, c.src, by simpa [mkFault] using ht.src, ?_⟩
+          simp [mkFault, hco, hav, LenError.addOffset, LenError.srcIfSlice, LenError.withSrc, ht.off]
+      · by_cases hi : g o % 16 < 5
+        · simp only [hi, if_true] at hm
+          rw [laxSliceIp_err c g o l _ hm (by simp)]
+          have hstep2 : Spec.step true g c.r .ipv4 ctx =
+              ⟨c.r, .done, ctx, some (mkFault ctx .content .ipv4Header 0 (g o % 16))⟩ := by
+            simp [Spec.step, hav, h20, hco, h4, hi]
+          rw [walkN_fault true g (k + 1) _ _ _ _ _ _ _ (by simp) hstep2]
+          exact relLaxW_of (relLax_stop hst ⟨by simp [mkFault, StopLayer], by simp [ErrMatch, ContentMatch, mkFault]⟩)
+        · by_cases hl : l < g o % 16 * 4
+          · simp only [hi, hl, if_true, if_false] at hm
+            rw [laxSliceIp_errLen c g o l _ hm]
+            have hstep2 : Spec.step true g c.r .ipv4 ctx =
+                ⟨c.r, .done, ctx, some (mkFault ctx .cutShort .ipv4Header (g o % 16 * 4))⟩ := by
+              simp [Spec.step, hav, h20, hco, h4, hi, hl]
+            rw [walkN_fault true g (k + 1) _ _ _ _ _ _ _ (by simp) hstep2]
+            refine relLaxW_of (relLax_stop hst ⟨by simp [mkFault, StopLayer], ?_⟩)
+            exact lenRel_fix _ _ c ctx o l ht (by lenrel)
+          · simp only [hi, hl, if_false] at hm
+            rw [laxSliceIp_ok c g o l _ hm]
+            exact relLaxW_of (afterIpL c g o l ctx k .ipv4 _ ht hst (by simp)
+              (ipv4_stepL g hg c.r ctx o l hco ht.stop (by omega) h4 (by omega) (by omega)))
+    · by_cases h6 : g o / 16 = 6
+      · have hstep : Spec.step true g c.r .ipAny ctx = ⟨c.r, .ipv6, ctx, none⟩ := by
+          simp [Spec.step, hl1, hco, h6]
+        rw [walkN_next true g (k + 2) _ _ _ _ _ _ (by simp) hstep]
+        by_cases h40 : l < 40
+        · have hm := laxIpSlice_v6 g o l h6 (by omega)
+          simp only [h40, if_true] at hm
+          rw [laxSliceIp_errLen c g o l _ hm]
+          have hstep2 : Spec.step true g c.r .ipv6 ctx =
+              ⟨c.r, .done, ctx, some (mkFault ctx .cutShort .ipv6Header 40)⟩ := by
+            simp [Spec.step, hav, h40]
+          rw [walkN_fault true g (k + 1) _ _ _ _ _ _ _ (by simp) hstep2]
+          refine relLaxW_of (relLax_stop hst ⟨by simp [mkFault, StopLayer], ?_⟩)
+          exact lenRel_fix _ _ c ctx o l ht (by lenrel)
+        · have hm := laxIpSlice_v6 g o l h6 (by omega)
+          simp only [h40, if_false] at hm
+          rw [laxSliceIp_ok c g o l _ hm]
+          exact relLaxW_of (afterIpL c g o l ctx k .ipv6 _ ht hst (by simp)
+            (ipv6_stepL g hg c.r ctx o l hco ht.stop (by omega) h6))
+      · have hstep : Spec.step true g c.r .ipAny ctx =
+            ⟨c.r, .done, ctx, some (mkFault ctx .content .ipAny 0 (g o / 16))⟩ := by
+          simp [Spec.step, hl1, hco, h4, h6]
+        rw [walkN_fault true g (k + 2) _ _ _ _ _ _ _ (by simp) hstep,
+          laxSliceIp_err c g o l _ (laxIpSlice_other g o l h4 h6 (by omega)) (by simp)]
+        exact relLaxW_of (relLax_stop hst ⟨by simp [mkFault, StopLayer], by simp [ErrMatch, ContentMatch, mkFault]⟩)
+
 end EpModel.Lemmas.RefineLax
